@@ -616,6 +616,33 @@ impl<'a> Prepared<'a> {
             Shape::RawComposite(b, _) => Some(Rat::int(b[0] as i64)),
         }
     }
+
+    /// Exact bounding box [xMin, yMin, xMax, yMax] of the instanced glyph over all its points, components
+    /// (composites of composites included) translated by their instanced offsets. None without contours.
+    pub fn instanced_bbox(&self, gid: usize, coords: &[i16]) -> Option<[Rat; 4]> {
+        let e = self.eval_glyph(gid, coords);
+        let join = |a: Option<[Rat; 4]>, b: [Rat; 4]| -> Option<[Rat; 4]> {
+            Some(match a {
+                None => b,
+                Some(a) => [a[0].min(b[0]), a[1].min(b[1]), a[2].max(b[2]), a[3].max(b[3])],
+            })
+        };
+        match &self.font.glyphs[gid].shape {
+            Shape::Empty => None,
+            Shape::Simple(_) => e.pts.iter().fold(None, |acc, p| join(acc, [p.0, p.1, p.0, p.1])),
+            Shape::Composite(comps) => {
+                let mut m = None;
+                for (k, c) in comps.iter().enumerate() {
+                    if let Some(cb) = self.instanced_bbox(c.gid as usize, coords) {
+                        let (dx, dy) = e.pts[k];
+                        m = join(m, [cb[0].add(dx), cb[1].add(dy), cb[2].add(dx), cb[3].add(dy)]);
+                    }
+                }
+                m
+            }
+            Shape::RawComposite(b, _) => Some([Rat::int(b[0] as i64), Rat::int(b[1] as i64), Rat::int(b[2] as i64), Rat::int(b[3] as i64)]),
+        }
+    }
 }
 
 /// Net adjustment of one delta set of an item variation store: sum over the referenced regions of scalar * delta.
@@ -1226,17 +1253,34 @@ fn encode_maxp(font: &VarFont) -> Vec<u8> {
                 max_ctr = max_ctr.max(c.len());
             }
             Shape::Composite(comps) => {
-                let mut p = 0;
-                let mut k = 0;
-                for c in comps {
-                    if let Shape::Simple(cc) = &font.glyphs[c.gid as usize].shape {
-                        p += cc.iter().map(|c| c.len()).sum::<usize>();
-                        k += cc.len();
+                // (points, contours, depth) of the flattened composite
+                fn flat(font: &VarFont, comps: &[Comp], level: usize) -> (usize, usize, usize) {
+                    let (mut p, mut k, mut d) = (0, 0, level);
+                    if level > 16 {
+                        return (p, k, d);
                     }
+                    for c in comps {
+                        match font.glyphs.get(c.gid as usize).map(|g| &g.shape) {
+                            Some(Shape::Simple(cc)) => {
+                                p += cc.iter().map(|c| c.len()).sum::<usize>();
+                                k += cc.len();
+                            }
+                            Some(Shape::Composite(inner)) => {
+                                let (ip, ik, id) = flat(font, inner, level + 1);
+                                p += ip;
+                                k += ik;
+                                d = d.max(id);
+                            }
+                            _ => {}
+                        }
+                    }
+                    (p, k, d)
                 }
+                let (p, k, d) = flat(font, comps, 1);
                 max_cpts = max_cpts.max(p);
                 max_cctr = max_cctr.max(k);
                 max_comp = max_comp.max(comps.len());
+                max_depth = max_depth.max(d);
             }
             Shape::RawComposite(_, comps) => {
                 max_comp = max_comp.max(comps.len());
@@ -1449,6 +1493,34 @@ pub fn static_xmin(sf: &StaticFont, gid: usize, depth: u32) -> Option<i64> {
         OutGlyph::Empty => None,
         OutGlyph::Simple { contours, .. } => contours.iter().flatten().map(|p| p.0 as i64).min(),
         OutGlyph::Composite { comps, .. } => comps.iter().filter_map(|c| static_xmin(sf, c.gid as usize, depth + 1).map(|m| m + c.arg1 as i64)).min(),
+    }
+}
+
+/// Bounding box [xMin, yMin, xMax, yMax] of the flattened outline of a glyph of a static font (components, nested
+/// ones included, translated by their offsets; transforms are not modelled).
+pub fn static_bbox(sf: &StaticFont, gid: usize, depth: u32) -> Option<[i64; 4]> {
+    if depth > 8 {
+        return None;
+    }
+    let join = |a: Option<[i64; 4]>, b: [i64; 4]| -> Option<[i64; 4]> {
+        Some(match a {
+            None => b,
+            Some(a) => [a[0].min(b[0]), a[1].min(b[1]), a[2].max(b[2]), a[3].max(b[3])],
+        })
+    };
+    match sf.glyphs.get(gid)? {
+        OutGlyph::Empty => None,
+        OutGlyph::Simple { contours, .. } => contours.iter().flatten().fold(None, |acc, p| join(acc, [p.0 as i64, p.1 as i64, p.0 as i64, p.1 as i64])),
+        OutGlyph::Composite { comps, .. } => {
+            let mut m = None;
+            for c in comps {
+                if let Some(b) = static_bbox(sf, c.gid as usize, depth + 1) {
+                    let (dx, dy) = (c.arg1 as i64, c.arg2 as i64);
+                    m = join(m, [b[0] + dx, b[1] + dy, b[2] + dx, b[3] + dy]);
+                }
+            }
+            m
+        }
     }
 }
 
